@@ -101,8 +101,12 @@ def make_case(rng, i):
                 steps.append({"op": "other", "action": "construct", "listeners": list(early)})
                 other_built = True
         elif r < 0.58:
-            steps.append({"op": "other", "action": "construct_incomplete"})
-            kinds.add(("same-class-over-incomplete-providers",))
+            if rng.random() < 0.6:
+                steps.append({"op": "other", "action": "construct_incomplete"})
+                kinds.add(("same-class-over-incomplete-providers",))
+            else:
+                steps.append({"op": "other", "action": "odd_state_field"})
+                kinds.add(("same-class-with-state-field-named-like-a-guard",))
         elif r < 0.60 and any(not s["final"] for s in spec["states"]):
             steps.append({"op": "other", "action": "subclass"})
             kinds.add(("subclass",))
@@ -124,7 +128,7 @@ def classify(case, rule, detail, log, fault, ck):
 
 def extra_check(case, run, log, ck, fault):
     other_log = getattr(run, "other_log", None)
-    n = sum(1 for e in log if e["k"] == "note" and e.get("what") in ("other-definition", "incomplete-construct"))
+    n = sum(1 for e in log if e["k"] == "note" and e.get("what") in ("other-definition", "incomplete-construct", "odd-state-field"))
     p = sum(1 for e in log if e["k"] == "note" and e.get("what") == "poke")
     case["_counters"] = {"other_definitions": n, "pokes": p}
     bad = next((e for e in log if e["k"] == "note" and e.get("what") == "other-definition" and e.get("exc")), None)
@@ -179,12 +183,15 @@ def run_probes(desc):
     v2 = []
     for _ in range(120):
         run_shared_objects(rng, counters, v2, sigs)
+    for _ in range(4):
+        run_threads_probe(counters, v2)
     violations += v2
     return {"evaluations": counters["partial_pair_checked"] + counters.get("wrapped_pair_checked", 0), "signatures": sorted(sigs), "samples": [],
             "counters": {"two_machine_partial_probes": counters["partial_pair_checked"],
                          "two_machine_wrapped_probes": counters.get("wrapped_pair_checked", 0),
                          "shared_list_sends": counters.get("shared_list_sends", 0),
-                         "same_enum_two_classes": counters.get("same_enum_two_classes", 0)},
+                         "same_enum_two_classes": counters.get("same_enum_two_classes", 0),
+                         "concurrent_sync_drivers": counters.get("concurrent_sync_drivers", 0)},
             "violations": violations[:2] + v2[:2]}
 
 
@@ -300,6 +307,60 @@ def run_shared_objects(rng, counters, violations, sigs):
         if problems:
             violations.append({"mechanism": "enum-states-shared-between-classes", "rule": "C16.callers-objects-stay-callers",
                                "detail": "; ".join(problems)[:600], "witness": {"source": SHARED_SRC + ENUM_B_SRC}})
+
+
+THREADS_SRC = '''
+import asyncio
+
+class TA(StateMachine):
+    a = State(initial=True)
+    b = State()
+    go = a.to(b) | b.to(a)
+    async def on_go(self, n):
+        await asyncio.sleep(0.004)
+        self.seen.append(n)
+        return n
+'''
+
+
+def run_threads_probe(counters, violations):
+    """Two (three) machines with coroutine callbacks, each driven from synchronous code in a thread of
+    its own at the same time: every machine runs its own events, nobody's send() fails."""
+    import threading
+
+    from statemachine import State, StateMachine
+
+    ns = {"State": State, "StateMachine": StateMachine, "__name__": "vmon_c16t"}
+    exec(compile(THREADS_SRC, "<c16-threads>", "exec"), ns)
+    for nthreads in (2, 3):
+        machines = [ns["TA"]() for _ in range(nthreads)]
+        for m in machines:
+            m.seen = []
+        errors, results = [], {}
+        start = threading.Barrier(nthreads)
+
+        def drive(i):
+            try:
+                start.wait(10)
+                out = []
+                for n in range(6):
+                    out.append(machines[i].go(i * 100 + n))
+                results[i] = out
+            except Exception as err:  # noqa: BLE001
+                errors.append(f"thread {i}: {type(err).__name__}: {err}"[:200])
+
+        ts = [threading.Thread(target=drive, args=(i,)) for i in range(nthreads)]
+        for t in ts:
+            t.start()
+        for t in ts:
+            t.join(60)
+        counters["concurrent_sync_drivers"] = counters.get("concurrent_sync_drivers", 0) + nthreads
+        want = {i: [i * 100 + n for n in range(6)] for i in range(nthreads)}
+        seen = {i: machines[i].seen for i in range(nthreads)}
+        if errors or results != want or seen != want:
+            violations.append({"mechanism": "async-machines-driven-from-several-threads", "rule": "C16.own-history-only",
+                               "detail": f"errors={errors[:3]} results={results} seen={seen}"[:600], "witness": {"source": THREADS_SRC, "threads": nthreads}})
+            return
 
 
 def run_shard(desc):
